@@ -293,15 +293,55 @@ def gen_risky(seed):
     return cfg.hugr
 
 
-def check(h):
+def gen_tracked_mixed(seed):
+    """Tracked builder programs with commands mixing explicit wires and tracked indices (wire first, index
+    first), two-qubit style operations and partially tracked wires."""
+    import hugr.ops as O
+    import hugr.tys as T
+    from hugr.build.tracked_dfg import TrackedDfg
+    rnd = random.Random(seed)
+    d = TrackedDfg(T.Qubit, T.Qubit, T.Bool, track_inputs=False)
+    q0, q1, b = d.inputs()
+    i0, i1 = d.track_wires([q0, q1])
+    cx = O.Custom("CX", T.FunctionType([T.Qubit, T.Qubit], [T.Qubit, T.Qubit]), extension="test.q")
+    cr = O.Custom("CRot", T.FunctionType([T.Bool, T.Qubit], [T.Bool, T.Qubit]), extension="test.q")
+    rc = O.Custom("RotC", T.FunctionType([T.Qubit, T.Bool], [T.Qubit, T.Bool]), extension="test.q")
+    h1 = O.Custom("H", T.FunctionType([T.Qubit], [T.Qubit]), extension="test.q")
+    bw = b
+    for _ in range(rnd.randint(1, 6)):
+        c = rnd.random()
+        if c < 0.3:
+            a, bq = rnd.sample([i0, i1], 2)
+            d.add(cx(a, bq))
+        elif c < 0.55:
+            n = d.add(cr(bw, rnd.choice([i0, i1])))          # explicit wire first, then a tracked index
+            bw = n[0]
+        elif c < 0.8:
+            n = d.add(rc(rnd.choice([i0, i1]), bw))          # tracked index first
+            bw = n[1]
+        else:
+            d.add(h1(rnd.choice([i0, i1])))
+    if rnd.random() < 0.5:
+        d.set_indexed_outputs(i0, i1, bw)
+    else:
+        w0 = d.untrack_wire(i0)
+        d.set_indexed_outputs(w0, i1, bw)
+    return d.hugr
+
+
+def check(h, wiring_by_construction=False):
+    """wiring_by_construction: the program wires every input once and consumes every linear value once by
+    construction, so a violation of R5 in the HUGR is the builders' doing, not the program's."""
     from hugr.hugr import Hugr
     from specs.validate import validate
     errs = validate(h)
-    dom = [e for e in errs if e[0] == "R5"]
-    if dom:
-        return ("domain", dom[0][1])
+    other = [e for e in errs if e[0] != "R5"]
+    if other:
+        return ("built", f"{other[0][0]}: {other[0][1]}")
     if errs:
-        return ("built", f"{errs[0][0]}: {errs[0][1]}")
+        if wiring_by_construction:
+            return ("built", f"{errs[0][0]}: {errs[0][1]}")
+        return ("domain", errs[0][1])
     # the document it serializes, read by an independent reader that follows the reference reader's port rules
     import json
     from specs.validate import hugr_from_doc
@@ -326,7 +366,7 @@ def main():
     runs = 500 if tier == "quick" else 5000
     violations, seen = [], set()
     ev = skipped = nontrivial = 0
-    gens = [("random", gen_program)] + [(n, (lambda s, p=p: p(random.Random(s)))) for n, p in PROGRAMS] + [("module", gen_module), ("risky", gen_risky), ("risky", gen_risky)]
+    gens = [("random", gen_program)] + [(n, (lambda s, p=p: p(random.Random(s)))) for n, p in PROGRAMS] + [("module", gen_module), ("risky", gen_risky), ("risky", gen_risky), ("tracked-mixed", gen_tracked_mixed)]
     for k in range(runs):
         seed = seed0 * 1000003 + k
         gname, g = gens[0] if k % 3 else gens[1 + (k // 3) % (len(gens) - 1)]
@@ -337,7 +377,7 @@ def main():
             skipped += 1
             continue
         ev += 1
-        r = check(h)
+        r = check(h, wiring_by_construction=gname != "risky")
         if r is None:
             if gname == "random":
                 nontrivial += 1
@@ -354,12 +394,12 @@ def main():
         idx = [n for n, _ in gens].index(gname)
         script = write_replay_script("C01", f"bounded_{len(violations)}", f"{gname} program, seed {seed} ({where} HUGR): {why}"[:700], f"""
 import random
-from bounded.c01 import gen_program, gen_risky, check
+from bounded.c01 import gen_program, gen_risky, gen_tracked_mixed, check
 from bounded.c12 import gen_module
 from bounded.hugr_gen import PROGRAMS
-gens = [("random", gen_program)] + [(n, (lambda s, p=p: p(random.Random(s)))) for n, p in PROGRAMS] + [("module", gen_module), ("risky", gen_risky), ("risky", gen_risky)]
+gens = [("random", gen_program)] + [(n, (lambda s, p=p: p(random.Random(s)))) for n, p in PROGRAMS] + [("module", gen_module), ("risky", gen_risky), ("risky", gen_risky), ("tracked-mixed", gen_tracked_mixed)]
 h = gens[{idx}][1]({seed})
-r = check(h)
+r = check(h, wiring_by_construction=gens[{idx}][0] != "risky")
 print("result:", r)
 sys.exit(1 if r is not None and r[0] != "domain" else 0)
 """)
